@@ -320,7 +320,7 @@ func (r *Run) SaveReplay(name string, data []byte) string {
 func ShortStack() []string {
 	buf := make([]byte, 1<<16)
 	buf = buf[:runtime.Stack(buf, false)]
-	var out []string
+	out := []string{} // never nil: the Json module of TLC does not accept null
 	for _, l := range strings.Split(string(buf), "\n") {
 		if strings.Contains(l, "/repo/") || strings.Contains(l, "go-txfile") {
 			out = append(out, strings.TrimSpace(l))
